@@ -34,7 +34,7 @@ import vlib
 from vlib import f2b, fs2b, b2f, b2fs
 
 ID = "C05"
-GEN = ["Dist", "Leaves", "Combinators", "Params"]
+GEN = ["Dist", "Leaves", "Combinators", "Params", "FamiliesGen", "Wrappers"]
 RULE = ("9 families (Normal, LogNormal, Uniform, Gumbel, Cauchy, StudentT, Laplace, Exponential, Logistic) x parameter arrays of every "
         "broadcastable shape (scalar / vector / matrix, parameters broadcasting against each other) x points inside, on the edge of and "
         "outside the support, +-inf and batched points: model `_log_prob` and public `log_prob` (NaN -> -inf) vs the real ones, special-value "
@@ -350,6 +350,10 @@ def corr(c, tier, rng):
     mixture_corr(c, tier, rng)
     mvn_corr(c, tier, rng)
     mixsample_corr(c, tier, rng)
+    # the REGENERATED constructors / accessors (Gen/FamiliesGen.lean) at Float vs the real constructors
+    import sys
+    from props import famgen
+    famgen.corr(c, tier, rng, sys.modules[__name__])
 
 
 def raises(f):
